@@ -3,11 +3,11 @@ package main
 // Property-level checks: which obligations constitute which property, evidence, VIOLATION lines.
 
 import (
-	"os/exec"
 	"encoding/json"
 	"flag"
 	"fmt"
 	"os"
+	"os/exec"
 	"path/filepath"
 	"regexp"
 	"sort"
@@ -407,20 +407,20 @@ func cmdCheck(args []string) {
 		"assumptions": assumptions,
 		"coverage": map[string]any{
 			"obligations": nObl, "discharged": discharged, "canaries": canaries,
-			"checker_cmd":              "/verif/bin/govc check " + id,
-			"trusted_base":             trusted,
-			"functions_under_contract": sortedKeys(funcs),
-			"callee_contracts_used":    sortedKeys(contractsUsed),
-			"dependency_units":         sortedKeys(depUnits),
-			"assumed_contracts_without_body": assumedOnly(w, contractsUsed),
+			"checker_cmd":                            "/verif/bin/govc check " + id,
+			"trusted_base":                           trusted,
+			"functions_under_contract":               sortedKeys(funcs),
+			"callee_contracts_used":                  sortedKeys(contractsUsed),
+			"dependency_units":                       sortedKeys(depUnits),
+			"assumed_contracts_without_body":         assumedOnly(w, contractsUsed),
 			"assumed_contracts_with_unverified_body": assumedBodies,
-			"inlined_callees":          sortedKeys(inlined),
-			"backends":                 backends,
-			"solver_time_s":            round3(solverTime),
-			"samples":                  samples,
-			"explanation":              pd.Explain,
-			"obligation_list":          reports,
-			"known_findings":           len(lines) - violations,
+			"inlined_callees":                        sortedKeys(inlined),
+			"backends":                               backends,
+			"solver_time_s":                          round3(solverTime),
+			"samples":                                samples,
+			"explanation":                            pd.Explain,
+			"obligation_list":                        reports,
+			"known_findings":                         len(lines) - violations,
 		},
 	}
 	if sens != nil {
